@@ -101,13 +101,13 @@ Section Index.
   Qed.
 
   (* ---- concat of rows of equal length *)
-  Lemma concat_uniform_length (rows : lmat) m : (forall r, In r rows -> length r = m) -> length (concat rows) = length rows * m.
+  Lemma concat_uniform_length {X} (rows : list (list X)) m : (forall r, In r rows -> length r = m) -> length (concat rows) = length rows * m.
   Proof.
     induction rows as [|r rows IH]; intros H; [reflexivity|]. cbn [concat length].
     rewrite app_length, IH by (intros; apply H; cbn; auto). rewrite (H r) by (cbn; auto). reflexivity.
   Qed.
 
-  Lemma nth_concat_uniform (rows : lmat) m a j d :
+  Lemma nth_concat_uniform {X} (rows : list (list X)) m a j d :
     (forall r, In r rows -> length r = m) -> a < length rows -> j < m ->
     nth (a * m + j) (concat rows) d = nth j (nth a rows []) d.
   Proof.
@@ -175,3 +175,275 @@ Section Index.
     apply sumn_ext. intros k Hk. unfold vnth. apply nth_map2; lia.
   Qed.
 End Index.
+
+(* ====================================================================== Part 2: the tensor operations of Optimizer.v by index *)
+Section TensorOps.
+  Context {F : Type} (Op : ops F).
+  Local Notation zero := (f0 Op).
+  Local Notation lmat := (list (list F)).
+
+  Lemma map_tab {A B} (f : A -> B) n g : map f (tab n g) = tab n (fun i => f (g i)).
+  Proof. unfold tab. apply map_map. Qed.
+
+  Lemma col_length j (m : lmat) : length (col Op j m) = length m.
+  Proof. unfold col. apply map_length. Qed.
+
+  Lemma vnth_col j (m : lmat) i : i < length m -> vnth Op (col Op j m) i = mnth Op m i j.
+  Proof.
+    intros H. unfold col, vnth, mnth.
+    rewrite (nth_indep _ zero ((fun r => nth j r zero) [])) by (rewrite map_length; exact H).
+    rewrite (map_nth (fun r => nth j r zero)). reflexivity.
+  Qed.
+
+  Lemma mtrans_length ncols (m : lmat) : length (mtrans Op ncols m) = ncols.
+  Proof. unfold mtrans. rewrite map_length, seq_length. reflexivity. Qed.
+
+  Lemma mnth_mtrans ncols (m : lmat) i j : j < ncols -> i < length m -> mnth Op (mtrans Op ncols m) j i = mnth Op m i j.
+  Proof.
+    intros Hj Hi. unfold mnth at 1. change (mtrans Op ncols m) with (tab ncols (fun j => col Op j m)).
+    rewrite nth_tab by exact Hj. apply vnth_col. exact Hi.
+  Qed.
+
+  Lemma numel_app a b : numel (a ++ b) = numel a * numel b.
+  Proof.
+    unfold numel. induction a as [|x a IH]; cbn [app fold_right]; [lia|]. rewrite IH. apply Nat.mul_assoc.
+  Qed.
+
+  Lemma tdot_ix_length d R m M x : length (tdot_ix Op d R m M x) = R * m.
+  Proof. apply tab_length. Qed.
+  Lemma rot_ix_length d R x : length (rot_ix Op d R x) = R * d.
+  Proof. apply tab_length. Qed.
+  Lemma mode0_length d P M y : length (mode0 Op d P M y) = d * P.
+  Proof. apply tab_length. Qed.
+
+  Lemma vnth_mode0 d P (M : lmat) y j r : j < d -> r < P ->
+    vnth Op (mode0 Op d P M y) (j * P + r) = sumn Op d (fun i => fmul Op (vnth Op y (i * P + r)) (mnth Op M i j)).
+  Proof.
+    intros Hj Hr. unfold mode0, vnth at 1. rewrite nth_tab by (apply lt_mul_add; assumption).
+    rewrite div_small', mod_small' by exact Hr. reflexivity.
+  Qed.
+  Lemma vnth_tdot_ix d R m (M : lmat) x q j : q < R -> j < m ->
+    vnth Op (tdot_ix Op d R m M x) (q * m + j) = sumn Op d (fun i => fmul Op (vnth Op x (i * R + q)) (mnth Op M i j)).
+  Proof.
+    intros Hq Hj. unfold tdot_ix, vnth at 1. rewrite nth_tab by (apply lt_mul_add; assumption).
+    rewrite div_small', mod_small' by exact Hj. reflexivity.
+  Qed.
+  Lemma vnth_rot_ix d R x q i : q < R -> i < d -> vnth Op (rot_ix Op d R x) (q * d + i) = vnth Op x (i * R + q).
+  Proof.
+    intros Hq Hi. unfold rot_ix, vnth at 1. rewrite nth_tab by (apply lt_mul_add; assumption).
+    rewrite div_small', mod_small' by exact Hi. reflexivity.
+  Qed.
+
+  (* torch.tensordot(t, M, ([0],[0])) *)
+  Lemma tdot0_data d0 rest x m (M : lmat) :
+    length x = d0 * numel rest -> length M = d0 ->
+    tdot0 Op (mkT (d0 :: rest) x) m M = mkT (rest ++ [m]) (tdot_ix Op d0 (numel rest) m M x).
+  Proof.
+    intros Hx HM. unfold tdot0. cbn [tsh tdat]. f_equal.
+    set (R := numel rest). set (X := chunks R d0 x).
+    assert (HX : length X = d0) by apply chunks_length.
+    unfold mmul. change (mtrans Op R X) with (tab R (fun q => col Op q X)).
+    change (mtrans Op m M) with (tab m (fun j => col Op j M)).
+    rewrite map_tab. unfold tdot_ix.
+    apply (concat_eq_tab Op _ R m).
+    - apply tab_length.
+    - intros a Ha. rewrite nth_tab by exact Ha. rewrite map_tab. apply tab_length.
+    - intros a b Ha Hb. unfold mnth. rewrite nth_tab by exact Ha. rewrite map_tab, nth_tab by exact Hb.
+      rewrite (dot_sumn Op _ _ d0) by (rewrite col_length; assumption).
+      rewrite div_small', mod_small' by exact Hb.
+      apply sumn_ext. intros i Hi. rewrite !vnth_col by lia. f_equal.
+      unfold X. apply mnth_chunks; assumption.
+  Qed.
+
+  (* t.permute(1, ..., n-1, 0) *)
+  Lemma rotl_data d0 rest x :
+    length x = d0 * numel rest ->
+    rotl Op (mkT (d0 :: rest) x) = mkT (rest ++ [d0]) (rot_ix Op d0 (numel rest) x).
+  Proof.
+    intros Hx. unfold rotl. cbn [tsh tdat]. f_equal.
+    set (R := numel rest). set (X := chunks R d0 x).
+    assert (HX : length X = d0) by apply chunks_length.
+    change (mtrans Op R X) with (tab R (fun q => col Op q X)). unfold rot_ix.
+    apply (concat_eq_tab Op _ R d0).
+    - apply tab_length.
+    - intros a Ha. rewrite nth_tab by exact Ha. rewrite col_length. exact HX.
+    - intros a b Ha Hb. unfold mnth. rewrite nth_tab by exact Ha.
+      change (nth b (col Op a X) zero) with (vnth Op (col Op a X) b). rewrite vnth_col by lia.
+      rewrite div_small', mod_small' by exact Hb. unfold X. apply mnth_chunks; assumption.
+  Qed.
+
+  (* the loop of _precondition_grad on a tensor whose first modes are [dims]; [tail] = modes already processed *)
+  Lemma precond_chain_data tr : forall sel dims mats tail x,
+    mats_fit sel dims mats -> length x = numel (dims ++ tail) ->
+    precond_chain Op tr sel mats (mkT (dims ++ tail) x)
+    = mkT (tail ++ dims) (chain_ix Op dims (sel_mats Op tr sel mats) (numel tail) x).
+  Proof.
+    induction sel as [|b s IH]; intros dims mats tail x Hfit Hx.
+    - destruct dims; [|contradiction]. cbn. rewrite app_nil_r. reflexivity.
+    - destruct dims as [|d ds]; [destruct b; contradiction|].
+      rewrite numel_app in Hx. cbn [numel fold_right] in Hx. fold (numel ds) in Hx.
+      destruct b.
+      + destruct mats as [|M ms]; [contradiction|]. destruct Hfit as [HM Hfit].
+        cbn [precond_chain sel_mats chain_ix]. rewrite HM.
+        set (M' := if tr then mtrans Op d M else M).
+        assert (HM' : length M' = d) by (unfold M'; destruct tr; [apply mtrans_length|exact HM]).
+        assert (E : (if tr then tdot0T Op (mkT ((d :: ds) ++ tail) x) d M else tdot0 Op (mkT ((d :: ds) ++ tail) x) d M)
+                    = mkT (ds ++ (tail ++ [d])) (tdot_ix Op d (numel ds * numel tail) d M' x)).
+        { unfold tdot0T, M'. cbn [app]. rewrite <- numel_app, app_assoc.
+          destruct tr; apply tdot0_data; try assumption; try (apply mtrans_length);
+            rewrite numel_app; lia. }
+        rewrite E. rewrite IH; [|exact Hfit|rewrite tdot_ix_length, !numel_app; cbn; lia].
+        rewrite <- app_assoc. cbn [app]. rewrite numel_app. cbn [numel fold_right]. rewrite Nat.mul_1_r. reflexivity.
+      + cbn [precond_chain sel_mats chain_ix]. cbn in Hfit.
+        assert (E : rotl Op (mkT ((d :: ds) ++ tail) x) = mkT (ds ++ (tail ++ [d])) (rot_ix Op d (numel ds * numel tail) x)).
+        { cbn [app]. rewrite <- numel_app, app_assoc. apply rotl_data. rewrite numel_app. lia. }
+        rewrite E. rewrite IH; [|exact Hfit|rewrite rot_ix_length, !numel_app; cbn; lia].
+        rewrite <- app_assoc. cbn [app]. rewrite numel_app. cbn [numel fold_right]. rewrite Nat.mul_1_r. reflexivity.
+  Qed.
+End TensorOps.
+
+(* ====================================================================== Part 3: the cyclic loop = product of mode products (any scalar) *)
+Section CyclicLoop.
+  Context {F : Type} (Op : ops F).
+  Local Notation zero := (f0 Op).
+  Local Notation lmat := (list (list F)).
+
+  (* b tensors of P entries each, stored with the tensor index as LAST mode: out[q*b + k] = B_k[q] *)
+  Definition ileave (b P : nat) (B : lmat) : list F := tab (P * b) (fun p => mnth Op B (p mod b) (p / b)).
+
+  Lemma nth_map_lt {A B} (f : A -> B) l i d d' : i < length l -> nth i (map f l) d' = f (nth i l d).
+  Proof. intros H. rewrite (nth_indep _ d' (f d)) by (rewrite map_length; exact H). apply map_nth. Qed.
+
+  Lemma concat_concat {X} (l : list (list (list X))) : concat (concat l) = concat (map (@concat X) l).
+  Proof. induction l as [|a l IH]; [reflexivity|]. cbn. rewrite concat_app, IH. reflexivity. Qed.
+
+  Lemma vnth_ileave b P B q k : q < P -> k < b -> vnth Op (ileave b P B) (q * b + k) = mnth Op B k q.
+  Proof.
+    intros Hq Hk. unfold ileave, vnth. rewrite nth_tab by (apply lt_mul_add; assumption).
+    rewrite div_small', mod_small' by exact Hk. reflexivity.
+  Qed.
+
+  (* one contraction step on b interleaved tensors = the mode-0 product of each, re-interleaved with b*d slices *)
+  Lemma tdot_ix_ileave d R b (M : lmat) (B : lmat) :
+    length B = b -> (forall r, In r B -> length r = d * R) ->
+    tdot_ix Op d (R * b) d M (ileave b (d * R) B)
+    = ileave (b * d) R (concat (map (fun Bk => chunks R d (mode0 Op d R M Bk)) B)).
+  Proof.
+    intros HB Hrows. unfold tdot_ix, ileave at 2.
+    replace (R * b * d) with (R * (b * d)) by ring.
+    apply tab_ext2. intros r s Hr Hs.
+    destruct (index_split b d s Hs) as (Es & Hk & Hj).
+    set (k := s / d) in *. set (j := s mod d) in *. clearbody k j. subst s.
+    rewrite div_small', mod_small' by (apply lt_mul_add; assumption).
+    replace (r * (b * d) + (k * d + j)) with ((r * b + k) * d + j) by ring.
+    rewrite div_small', mod_small' by exact Hj.
+    (* right-hand side *)
+    unfold mnth at 2.
+    rewrite (nth_concat_uniform _ d k j []).
+    2:{ intros g Hg. apply in_map_iff in Hg. destruct Hg as (Bk & <- & _). apply chunks_length. }
+    2:{ rewrite map_length. lia. }
+    2:{ exact Hj. }
+    rewrite (nth_map_lt _ B k []) by lia.
+    change (nth r (nth j (chunks R d (mode0 Op d R M (nth k B []))) []) zero)
+      with (mnth Op (chunks R d (mode0 Op d R M (nth k B []))) j r).
+    rewrite mnth_chunks by assumption. rewrite vnth_mode0 by assumption.
+    apply sumn_ext. intros i Hi. f_equal.
+    replace (i * (R * b) + (r * b + k)) with ((i * R + r) * b + k) by ring.
+    rewrite vnth_ileave by (try assumption; apply lt_mul_add; assumption). reflexivity.
+  Qed.
+
+  Lemma rot_ix_ileave d R b (B : lmat) :
+    length B = b -> (forall r, In r B -> length r = d * R) ->
+    rot_ix Op d (R * b) (ileave b (d * R) B) = ileave (b * d) R (concat (map (fun Bk => chunks R d Bk) B)).
+  Proof.
+    intros HB Hrows. unfold rot_ix, ileave at 2.
+    replace (R * b * d) with (R * (b * d)) by ring.
+    apply tab_ext2. intros r s Hr Hs.
+    destruct (index_split b d s Hs) as (Es & Hk & Hj).
+    set (k := s / d) in *. set (j := s mod d) in *. clearbody k j. subst s.
+    rewrite div_small', mod_small' by (apply lt_mul_add; assumption).
+    replace (r * (b * d) + (k * d + j)) with ((r * b + k) * d + j) by ring.
+    rewrite div_small', mod_small' by exact Hj.
+    unfold mnth at 1.
+    rewrite (nth_concat_uniform _ d k j []).
+    2:{ intros g Hg. apply in_map_iff in Hg. destruct Hg as (Bk & <- & _). apply chunks_length. }
+    2:{ rewrite map_length. lia. }
+    2:{ exact Hj. }
+    rewrite (nth_map_lt _ B k []) by lia.
+    change (nth r (nth j (chunks R d (nth k B [])) []) zero) with (mnth Op (chunks R d (nth k B [])) j r).
+    rewrite mnth_chunks by assumption.
+    replace (j * (R * b) + (r * b + k)) with ((j * R + r) * b + k) by ring.
+    rewrite vnth_ileave by (try assumption; apply lt_mul_add; assumption). reflexivity.
+  Qed.
+
+  Lemma mode_products_nil Ms (x : list F) : mode_products Op [] Ms x = x.
+  Proof. reflexivity. Qed.
+
+  (* the loop on b interleaved tensors computes the mode products of each of them (tensor index first) *)
+  Lemma chain_ix_batch : forall ds Ms b (B : lmat),
+    length Ms = length ds -> length B = b -> (forall r, In r B -> length r = numel ds) ->
+    chain_ix Op ds Ms b (ileave b (numel ds) B) = concat (map (mode_products Op ds Ms) B).
+  Proof.
+    induction ds as [|d ds IH]; intros Ms b B HMs HB Hrows.
+    - cbn [chain_ix]. rewrite (map_ext _ (fun x => x)) by (intros; apply mode_products_nil). rewrite map_id.
+      cbn [numel fold_right] in *. unfold ileave.
+      rewrite (concat_eq_tab Op B b 1 (fun p => mnth Op B p 0)).
+      + replace (1 * b) with (b * 1) by lia. apply tab_ext. intros p Hp.
+        rewrite Nat.mod_small, Nat.div_small by lia. reflexivity.
+      + exact HB.
+      + intros a Ha. apply Hrows. apply nth_In. lia.
+      + intros a c Ha Hc. replace c with 0 by lia. replace (a * 1 + 0) with a by lia. reflexivity.
+    - destruct Ms as [|oM Ms]; [discriminate|]. cbn [length] in HMs.
+      change (numel (d :: ds)) with (d * numel ds) in *. set (R := numel ds) in *.
+      assert (Hfin : forall (g : list F -> lmat),
+                 (forall Bk, In Bk B -> length (g Bk) = d) ->
+                 (forall Bk r, In Bk B -> In r (g Bk) -> length r = R) ->
+                 chain_ix Op ds Ms (b * d) (ileave (b * d) R (concat (map g B)))
+                 = concat (map (fun Bk => concat (map (mode_products Op ds Ms) (g Bk))) B)).
+      { intros g Hg1 Hg2. rewrite IH.
+        - rewrite concat_map, concat_concat, !map_map. reflexivity.
+        - lia.
+        - rewrite (concat_uniform_length _ d), map_length; [lia|].
+          intros grp Hgrp. apply in_map_iff in Hgrp. destruct Hgrp as (Bk & <- & HBk). apply Hg1. exact HBk.
+        - intros r Hr. apply in_concat in Hr. destruct Hr as (grp & Hgrp & Hr).
+          apply in_map_iff in Hgrp. destruct Hgrp as (Bk & <- & HBk). apply (Hg2 Bk r HBk Hr). }
+      destruct oM as [M|]; cbn [chain_ix mode_products]; fold R.
+      + rewrite tdot_ix_ileave by assumption. apply Hfin.
+        * intros. apply chunks_length.
+        * intros Bk r _ Hr. apply (chunks_rows_In R d _ r); [apply mode0_length|exact Hr].
+      + rewrite rot_ix_ileave by assumption. apply Hfin.
+        * intros. apply chunks_length.
+        * intros Bk r HBk Hr. apply (chunks_rows_In R d _ r); [apply Hrows; exact HBk|exact Hr].
+  Qed.
+
+  Lemma ileave_one P (x : list F) : length x = P -> ileave 1 P [x] = x.
+  Proof.
+    intros H. unfold ileave. symmetry. apply eq_tab; [lia|].
+    intros i Hi. rewrite Nat.mod_1_r, Nat.div_1_r. reflexivity.
+  Qed.
+
+  Lemma sel_mats_length tr : forall sel dims (mats : list lmat), mats_fit sel dims mats -> length (sel_mats Op tr sel mats) = length dims.
+  Proof.
+    induction sel as [|b s IH]; intros dims mats H.
+    - destruct dims; [reflexivity|contradiction].
+    - destruct dims as [|d ds]; [destruct b; contradiction|]. destruct b.
+      + destruct mats as [|M ms]; [contradiction|]. destruct H as [_ H]. cbn. rewrite (IH ds ms H). reflexivity.
+      + cbn. rewrite (IH ds mats H). reflexivity.
+  Qed.
+
+  (* cyclic_tensordot_is_mode_product: the n-fold rotate-and-contract loop of _precondition_grad equals the product of
+     the mode-k products, for every order, every selector and every scalar type (no rounding argument is involved:
+     both sides perform the same scalar operations) *)
+  Theorem cyclic_tensordot_is_mode_product tr sel dims (mats : list lmat) x :
+    mats_fit sel dims mats -> length x = numel dims ->
+    precond_chain Op tr sel mats (mkT dims x) = mkT dims (mode_products Op dims (sel_mats Op tr sel mats) x).
+  Proof.
+    intros Hfit Hx.
+    pose proof (precond_chain_data Op tr sel dims mats [] x Hfit) as H.
+    rewrite app_nil_r in H. cbn [app numel fold_right] in H. rewrite (H Hx). f_equal.
+    pose proof (chain_ix_batch dims (sel_mats Op tr sel mats) 1 [x] (sel_mats_length tr sel dims mats Hfit) eq_refl) as Hb.
+    rewrite ileave_one in Hb by exact Hx. rewrite Hb.
+    - cbn. apply app_nil_r.
+    - intros r [<-|[]]. exact Hx.
+  Qed.
+End CyclicLoop.
